@@ -7,7 +7,7 @@
 From Coq Require Import List NArith ZArith Bool Arith Permutation Sorted.
 From DV Require Import Base.Dec Base.DecRound C02.Model.
 From DV Require Import C09.Values C09.Model C08.Model C08.Proofs.
-From DV Require Import C08.Model2 C08.SortProofs C08.ModeProofs C08.NumProofs C08.StatProofs C08.LiteralProofs.
+From DV Require Import C08.Model2 C08.SortProofs C08.ModeProofs C08.NumProofs C08.StatProofs C08.LiteralProofs C08.DeterminedProofs.
 Import ListNotations.
 Open Scope Z_scope.
 
@@ -56,18 +56,29 @@ Theorem C08_insert_at_nth :
   forall A (l : list A) i j x d, (i <= length l)%nat ->
   nth j (insert_at i x l) d = if (j <? i)%nat then nth j l d else if (j =? i)%nat then x else nth (j - 1) l d.
 Proof. exact insert_at_nth. Qed.
+(* the position is ANY number that denotes an integer, whatever its exponent (1.0, 20E-1); the length is any number: below 1 the
+   result is null, otherwise its integer part (trunc_int: towards zero) counts; a position that is not an integer: null (next theorem) *)
 Theorem C08_substring2 :
-  forall cs p, zlen cs <= I64MAX -> I64MIN <= p <= I64MAX ->
-  pos Substring [VStr cs; VNum p 0] =
+  forall cs c e p, zlen cs <= I64MAX -> to_int c e = Some p ->
+  pos Substring [VStr cs; VNum c e] =
   Some (match spec_index (zlen cs) p with Some i => VStr (skipn (Z.to_nat i) cs) | None => VNull end).
-Proof. exact substring2_spec. Qed.
+Proof. exact substring2_general. Qed.
 Theorem C08_substring3 :
-  forall cs p k, zlen cs <= I64MAX -> I64MIN <= p <= I64MAX ->
-  pos Substring [VStr cs; VNum p 0; VNum k 0] =
+  forall cs c e p lc le, zlen cs <= I64MAX -> to_int c e = Some p ->
+  let k := trunc_int lc le in
+  pos Substring [VStr cs; VNum c e; VNum lc le] =
   Some (match spec_index (zlen cs) p with
         | Some i => if (1 <=? k) && (i + k <=? zlen cs) then VStr (firstn (Z.to_nat k) (skipn (Z.to_nat i) cs)) else VNull
         | None => VNull end).
-Proof. exact substring3_spec. Qed.
+Proof. exact substring3_general. Qed.
+Example C08_substring_scaled_arguments :
+  pos Substring [VStr [97; 98; 99]%N; VNum 10 (-1)] = Some (VStr [97; 98; 99]%N) /\
+  pos Substring [VStr [97; 98; 99]%N; VNum 20 (-1); VNum 10 (-1)] = Some (VStr [98]%N) /\
+  pos Substring [VStr [97; 98; 99]%N; VNum 1 0; VNum 29 (-1)] = Some (VStr [97; 98]%N) /\
+  pos Substring [VStr [97; 98; 99]%N; VNum 1 0; VNum 9 (-1)] = Some VNull /\
+  pos Substring [VStr [97; 98; 99]%N; VNum 15 (-1)] = Some VNull /\
+  pos Substring [VStr [97; 98; 99]%N; VNum (-10) (-1)] = Some (VStr [99]%N).
+Proof. exact substring_general_example. Qed.
 Theorem C08_substring_non_integer :
   forall cs c e len, to_int c e = None -> b_substring to_int (VStr cs) (VNum c e) len = VNull.
 Proof. exact substring_nonint. Qed.
@@ -104,6 +115,22 @@ Proof. exact concatenate_spec. Qed.
 Theorem C08_append :
   forall xs vs, b_append (VList xs) vs = VList (xs ++ vs).
 Proof. exact append_spec. Qed.
+(* flatten: the leaves from left to right.  flatten_eqs f : f [] = [] and f (x :: r) = (the leaves of x if x is a list, else [x]) ++ f r;
+   the function of the model satisfies the two equations and is their ONLY solution on lists (the constant [] is not one) *)
+Theorem C08_flatten_equations :
+  flatten_value (VList []) = [] /\
+  (forall x r, flatten_value (VList (x :: r)) = (if is_list x then flatten_value x else [x]) ++ flatten_value (VList r)) /\
+  (forall xs, b_flatten (VList xs) = VList (flatten_value (VList xs))) /\ (forall v, is_list v = false -> b_flatten v = VNull).
+Proof. exact (conj (proj1 flatten_equations) (conj (proj2 flatten_equations) flatten_forms)). Qed.
+Theorem C08_flatten_is_determined :
+  forall f,
+  (f (VList []) = [] /\ forall x r, f (VList (x :: r)) = (if is_list x then f x else [x]) ++ f (VList r)) ->
+  forall xs, f (VList xs) = flatten_value (VList xs).
+Proof. exact flatten_is_determined. Qed.
+Example C08_flatten_example :
+  b_flatten (VList [VNum 1 0; VList [VNum 2 0; VList [VNum 3 0; VList []]]; VList [VList [VNum 4 0]]; VNull; VList [VNull]])
+  = VList [VNum 1 0; VNum 2 0; VNum 3 0; VNum 4 0; VNull; VNull].
+Proof. exact flatten_example. Qed.
 Theorem C08_flatten_no_lists :
   forall v, Forall (fun x => is_list x = false) (flatten_value v).
 Proof. exact flatten_no_lists. Qed.
@@ -123,6 +150,29 @@ Proof. exact index_of_spec. Qed.
 Theorem C08_list_contains :
   forall xs x, b_list_contains (VList xs) x = VBool true <-> exists y, In y xs /\ teq y x = Some true.
 Proof. exact list_contains_spec. Qed.
+(* distinct values / union: dvals xs = the results.  The first occurrence of every value survives, in the order of the list, equality being
+   FEEL `=` (feel_eq a b : teq a b = Some true, so 1 = 1.0 and [1] = [1.0]): an item appended to the list is appended to the result exactly
+   when no result so far is equal to it.  These two equations have dvals as their ONLY solution; union = distinct values of the concatenation *)
+Theorem C08_distinct_values_equations :
+  dvals [] = [] /\
+  (forall pre x, dvals (pre ++ [x]) = if existsb (fun v => feel_eq v x) (dvals pre) then dvals pre else dvals pre ++ [x]) /\
+  (forall xs, b_distinct_values (VList xs) = VList (dvals xs)) /\
+  (forall ls, b_union (map VList ls) = VList (dvals (concat ls))) /\
+  (forall v, is_list v = false -> b_distinct_values v = VNull).
+Proof. exact (conj (proj1 distinct_values_equations) (conj (proj2 distinct_values_equations) distinct_values_forms)). Qed.
+Theorem C08_distinct_values_is_determined :
+  forall f,
+  (f [] = [] /\ forall pre x, f (pre ++ [x]) = if existsb (fun v => feel_eq v x) (f pre) then f pre else f pre ++ [x]) ->
+  forall xs, f xs = dvals xs.
+Proof. exact distinct_values_is_determined. Qed.
+Theorem C08_distinct_values_order :
+  forall pre post, exists tl, dvals (pre ++ post) = dvals pre ++ tl /\ forall t, In t tl -> In t post.
+Proof. exact distinct_values_order. Qed.
+Example C08_distinct_values_example :
+  b_distinct_values (VList [VNum 1 0; VNum 2 0; VNum 10 (-1); VStr [97%N]; VNull; VNum 200 (-2); VNull; VList [VNum 1 0]; VList [VNum 10 (-1)]])
+  = VList [VNum 1 0; VNum 2 0; VStr [97%N]; VNull; VList [VNum 1 0]] /\
+  b_union [VList [VNum 2 0; VNum 1 0]; VList [VNum 10 (-1); VNum 3 0; VNum 2 0]] = VList [VNum 2 0; VNum 1 0; VNum 3 0].
+Proof. exact distinct_values_example. Qed.
 Theorem C08_distinct_values :
   forall xs, exists res,
   b_distinct_values (VList xs) = VList res /\ distinct_list res /\
@@ -504,6 +554,16 @@ Theorem C08_orig_sum_overflow_refuted :
 Proof. exact orig_sum_overflow_refuted. Qed.
 
 (* split / replace / matches with a literal pattern *)
+(* the empty delimiter / pattern matches at every position, also before the first and after the last character, as Regex::split and
+   replace_all do (split("abc", "") = ["", "a", "b", "c", ""], replace("abc", "", "-") = "-a-b-c-", matches(s, "") = true; compared
+   with the code); C08_split_join, C08_replace_is_split_join, C08_replace_by_itself, C08_matches_iff_split_splits hold for EVERY
+   delimiter including the empty one, C08_split_pieces_free / C08_split_equation / C08_replace_equation need d <> [] and say so *)
+Theorem C08_split_empty_delimiter :
+  forall s r,
+  split_lit s [] = [] :: map (fun c => [c]) s ++ [[]] /\
+  replace_lit s [] r = r ++ flat_map (fun c => c :: r) s /\
+  b_matches (VStr s) (VStr []) = VBool true.
+Proof. exact split_empty_delimiter. Qed.
 Theorem C08_split_join :
   forall s d, join d (split_lit s d) = s.
 Proof. exact split_join. Qed.
@@ -674,3 +734,12 @@ Print Assumptions C08_steps_in_format.
 Print Assumptions C08_aggregates_in_format.
 Print Assumptions C08_stddev_nonvacuous.
 Print Assumptions C08_orig_sum_overflow_refuted.
+Print Assumptions C08_substring_scaled_arguments.
+Print Assumptions C08_flatten_equations.
+Print Assumptions C08_flatten_is_determined.
+Print Assumptions C08_flatten_example.
+Print Assumptions C08_distinct_values_equations.
+Print Assumptions C08_distinct_values_is_determined.
+Print Assumptions C08_distinct_values_order.
+Print Assumptions C08_distinct_values_example.
+Print Assumptions C08_split_empty_delimiter.
